@@ -1,0 +1,102 @@
+//go:build verif
+
+package pair
+
+// Contracts for package pair, checked by /verif (govc). Comment-only file: it adds no declarations.
+//
+// Vocabulary (see /verif/contracts/spec/hap.spec): proven(S) - a valid SRP proof for premaster secret S was presented;
+// storeOK(name, key) - the rule under which pair-setup may store a controller; dbver/lastname/lastkey - abstract view
+// of the pairing database; cval(c, tag) - abstract view of a TLV8 container.
+
+// ---------------------------------------------------------------- small pure helpers
+
+//@ func (t PairStepType) Byte() (b)
+//@   pure
+//@   ensures b == t
+//@ func (t VerifyStepType) Byte() (b)
+//@   pure
+//@   ensures b == t
+//@ func (t errCode) Byte() (b)
+//@   pure
+//@   ensures b == t
+//@ func (m PairMethodType) Byte() (b)
+//@   pure
+//@   ensures b == m
+
+//@ func errInvalidPairMethod(m) (err)
+//@   pure
+//@   ensures err != nil
+//@ func errInvalidPairStep(t) (err)
+//@   pure
+//@   ensures err != nil
+//@ func errInvalidInternalPairStep(t) (err)
+//@   pure
+//@   ensures err != nil
+//@ func errInvalidVerifyStep(t) (err)
+//@   pure
+//@   ensures err != nil
+//@ func errInvalidInternalVerifyStep(t) (err)
+//@   pure
+//@   ensures err != nil
+
+// ---------------------------------------------------------------- pair-setup session
+
+//@ func (p *SetupServerSession) SetupPrivateKeyFromClientPublicKey(key) (err)
+//@   requires p != nil && p.session != nil
+//@   modifies p.PrivateKey, srpkey(p.session), keyset(p.session)
+//@   ensures err == nil ==> seq(p.PrivateKey) == srpkey(p.session) && keyset(p.session) && ref(p.PrivateKey) != ref(p) && len(p.PrivateKey) > 0
+//@   ensures err != nil ==> unchanged(p.PrivateKey) && srpkey(p.session) == old(srpkey(p.session)) && keyset(p.session) == old(keyset(p.session))
+
+//@ func (p *SetupServerSession) ProofFromClientProof(clientProof) (proof, err)
+//@   requires p != nil && p.session != nil
+//@   ensures err == nil && keyset(p.session) ==> proven(srpkey(p.session))
+//@   ensures err != nil ==> proof == nil
+//@   ensures err == nil ==> len(proof) > 0
+
+//@ func (p *SetupServerSession) SetupEncryptionKey(salt, info) (err)
+//@   requires p != nil
+//@   modifies p.EncryptionKey
+//@   ensures err == nil ==> seq(p.EncryptionKey) == hkdf(old(seq(p.PrivateKey)), old(seq(salt)), old(seq(info)))
+//@   ensures err != nil ==> unchanged(p.EncryptionKey)
+
+// ---------------------------------------------------------------- pair-setup controller (C02, C13)
+
+// Resting states only; in state VerifyResponse (4) the session holds a secret S for which the SRP proof was accepted
+// and the message key derived from it.
+//@ pred sessProven(ss) = proven(seq(ss.PrivateKey)) && ref(ss.PrivateKey) != ref(ss) &&
+//@      seq(ss.EncryptionKey) == hkdf(seq(ss.PrivateKey), seq("Pair-Setup-Encrypt-Salt"), seq("Pair-Setup-Encrypt-Info"))
+//@ pred setupInv(s) = s != nil && s.session != nil && s.session.session != nil && s.database != nil && s.device != nil &&
+//@      ref(s.session.PrivateKey) != ref(s) && (s.step == 0 || s.step == 2 || s.step == 4 || s.step == 6) && (s.step == 4 ==> sessProven(s.session))
+//@ pred dbStep(d) = dbver(d) == old(dbver(d)) || (dbver(d) == old(dbver(d)) + 1 && storeOK(lastname(d), lastkey(d)))
+
+//@ func (setup *SetupServerController) reset()
+//@   requires setup != nil
+//@   modifies setup.step
+//@   ensures setup.step == 0
+
+//@ func (setup *SetupServerController) Handle(in) (out, err)
+//@   requires setupInv(setup) && in != nil
+//@   modifies setup.step, *setup.session, srpkey(setup.session.session), keyset(setup.session.session), dbver(setup.database), lastname(setup.database), lastkey(setup.database), dbhas, dbkey
+//@   ensures inv: setupInv(setup)
+//@   ensures stored: dbStep(setup.database)
+//@   ensures answered: err == nil ==> out != nil
+//@   ensures restart: len(cval(in, 0)) == 0 && len(cval(in, 6)) == 1 && seqat(cval(in, 6), 0) == 1 && old(setup.step) != 0 ==> err != nil && setup.step == 0
+//@   ensures start: len(cval(in, 0)) == 0 && len(cval(in, 6)) == 1 && seqat(cval(in, 6), 0) == 1 && old(setup.step) == 0 ==> err == nil
+
+//@ func (setup *SetupServerController) handlePairStart(in) (out, err)
+//@   requires setupInv(setup) && in != nil && setup.step == 0
+//@   modifies setup.step
+//@   ensures setupInv(setup) && err == nil && out != nil
+
+//@ func (setup *SetupServerController) handlePairVerify(in) (out, err)
+//@   requires setupInv(setup) && in != nil && setup.step == 2
+//@   modifies setup.step, *setup.session, srpkey(setup.session.session), keyset(setup.session.session)
+//@   ensures inv: setupInv(setup)
+//@   ensures answered: err == nil ==> out != nil
+
+//@ func (setup *SetupServerController) handleKeyExchange(in) (out, err)
+//@   requires setupInv(setup) && in != nil && setup.step == 4
+//@   modifies setup.step, dbver(setup.database), lastname(setup.database), lastkey(setup.database), dbhas, dbkey
+//@   ensures inv: setupInv(setup)
+//@   ensures stored: dbStep(setup.database)
+//@   ensures answered: err == nil ==> out != nil
